@@ -1,6 +1,20 @@
 import NetVerif.Model.H2Norm
 /-!
-C14 — part 3: the documented normalisations (`Model/H2Norm.lean`).
+C14 — part 3: the documented normalisations of `Model/H2Norm.lean` (request direction).
+
+* N1 case mapping: `lower_idem`, `canonKey_idem`, `lower_canonKey` (all for every byte string),
+  `canonKey_lower` (needs token bytes: `canonKey_lower_needs_valid` is the counterexample "A B");
+* N2 `clientNorm_keeps_field`: the Transport puts every value of every non-special key on the wire;
+* N3 `clientNorm_no_connection_specific`: no connection-specific name is ever on the wire;
+* N4 `serverView_header_get` / `serverView_keeps_field`: the handler's header map under a key other
+  than `Cookie`/`Trailer` is exactly the values of the regular wire fields with that canonical
+  name, in wire order (via the header-map algebra `get_add_same`, `get_add_ne`, `get_set_ne`,
+  `get_del_ne`, `fieldsToMap_get`);
+* N5 `normalize_keeps_field`: end to end, no value of a valid, non-special key is dropped
+  (`normalize_keeps_field_needs_valid`: in the model, validity of the name cannot be dropped);
+* N6 `normalize_method`, `normalize_uri`, `normalize_host`, `normalize_body`.
+
+String literals (`str "…"`) are evaluated by the kernel (`decide +kernel`), no native code.
 -/
 namespace NetVerif.Proofs.C14Norm
 open NetVerif NetVerif.Model.H2Frame NetVerif.Model.H2Msg NetVerif.Model.H2Norm
@@ -452,5 +466,108 @@ theorem normalize_keeps_field (r : Req) (k : Str) (vv : List Str) (hm : (k, vv) 
     (hv : ValidName k) (h : lower k ∉ specialReqNames) (_hp : k ≠ str ":protocol") :
     ∀ v ∈ vv, v ∈ (normalize r).header.get (canonKey k) :=
   normalize_keeps_field_valid r k vv hm hv h
+
+/-! ## N6 — request line, authority and body -/
+
+theorem reqFields_shape (r : Req) : ∃ t, reqFields r =
+    ⟨str ":authority", r.authority⟩ :: ⟨str ":method", r.methodOrGet⟩ :: ⟨str ":path", r.path⟩ ::
+      ⟨str ":scheme", r.scheme⟩ :: t := by
+  unfold reqFields
+  simp only [List.append_assoc, List.cons_append, List.nil_append]
+  exact ⟨_, rfl⟩
+
+theorem pseudoValue_prefix (a m p s : Str) (t : List Field) :
+    let fs : List Field := ⟨str ":authority", a⟩ :: ⟨str ":method", m⟩ :: ⟨str ":path", p⟩ ::
+      ⟨str ":scheme", s⟩ :: t
+    pseudoValue fs (str "authority") = a ∧ pseudoValue fs (str "method") = m ∧
+      pseudoValue fs (str "path") = p := by
+  have e1 : str ":authority" = 58 :: str "authority" := by decide +kernel
+  have e2 : str ":method" = 58 :: str "method" := by decide +kernel
+  have e3 : str ":path" = 58 :: str "path" := by decide +kernel
+  have e4 : str ":scheme" = 58 :: str "scheme" := by decide +kernel
+  have n1 : (str "authority" == str "method") = false := by decide +kernel
+  have n2 : (str "authority" == str "path") = false := by decide +kernel
+  have n3 : (str "method" == str "path") = false := by decide +kernel
+  simp only [e1, e2, e3, e4, pseudoValue, pseudoFields, List.takeWhile_cons, Field.isPseudo,
+    if_true, List.find?_cons]
+  simp [n1, n2, n3]
+
+theorem normalize_method (r : Req) : (normalize r).method = r.methodOrGet := by
+  obtain ⟨t, ht⟩ := reqFields_shape r
+  show pseudoValue (reqFields r) (str "method") = _
+  rw [ht]; exact (pseudoValue_prefix _ _ _ _ t).2.1
+
+theorem normalize_uri (r : Req) : (normalize r).uri = r.path := by
+  obtain ⟨t, ht⟩ := reqFields_shape r
+  show pseudoValue (reqFields r) (str "path") = _
+  rw [ht]; exact (pseudoValue_prefix _ _ _ _ t).2.2
+
+theorem normalize_host (r : Req) (h : r.authority ≠ []) : (normalize r).host = r.authority := by
+  obtain ⟨t, ht⟩ := reqFields_shape r
+  have ha : pseudoValue (clientNorm r).headers (str "authority") = r.authority := by
+    show pseudoValue (reqFields r) (str "authority") = _
+    rw [ht]; exact (pseudoValue_prefix _ _ _ _ t).1
+  unfold normalize serverView
+  simp only [ha]
+  have : r.authority.isEmpty = false := by cases hr : r.authority with
+    | nil => exact absurd hr h
+    | cons _ _ => rfl
+  simp [this]
+
+theorem normalize_body (r : Req) : (normalize r).body = r.body := rfl
+
+/-! ## Non-vacuity: the hypothesis sets are satisfiable, and where they cannot be dropped -/
+
+instance (k : Str) : Decidable (ValidName k) := by unfold ValidName; infer_instance
+
+/-- a concrete request: POST with a body, two ordinary keys (one with two values), a `Connection`
+header (dropped), a cookie and a declared trailer. -/
+def exReq : Req :=
+  { method := str "POST", scheme := str "https", host := [], uhost := str "example.com",
+    path := str "/a?b=c", contentLength := 3, nilBody := false, body := str "xyz",
+    header := [(str "X-Foo-bar", [str "1", str "2"]), (str "Connection", [str "close"]),
+               (str "Cookie", [str "a=b; c=d"]), (str "accept", [str "*/*"])],
+    trailer := [(str "X-Sum", [str "9"])], gzip := true }
+
+/-- the hypotheses of N1 (`ValidName`), N2 and N5 hold for the key `X-Foo-bar` of `exReq`. -/
+example : (str "X-Foo-bar", [str "1", str "2"]) ∈ exReq.header ∧ ValidName (str "X-Foo-bar") ∧
+    lower (str "X-Foo-bar") ∉ specialReqNames ∧ str "X-Foo-bar" ≠ str ":protocol" := by
+  decide +kernel
+
+/-- … and the conclusions, instantiated (the key is re-canonicalised to `X-Foo-Bar`). -/
+example : canonKey (str "X-Foo-bar") = str "X-Foo-Bar" ∧
+    (normalize exReq).header.get (str "X-Foo-Bar") = [str "1", str "2"] ∧
+    (normalize exReq).header.get (str "Connection") = [] ∧
+    (normalize exReq).header.get (str "Cookie") = [str "a=b; c=d"] ∧
+    (normalize exReq).host = str "example.com" ∧ (normalize exReq).method = str "POST" := by
+  decide +kernel
+
+example : str "1" ∈ (normalize exReq).header.get (canonKey (str "X-Foo-bar")) :=
+  normalize_keeps_field exReq (str "X-Foo-bar") [str "1", str "2"] (by decide +kernel)
+    (by decide +kernel) (by decide +kernel) (by decide +kernel) _ (by decide +kernel)
+
+/-- the hypotheses of N4 hold for a regular field of the wire message of `exReq`. -/
+example : (⟨str "accept", str "*/*"⟩ : Field) ∈ regularFields (clientNorm exReq).headers ∧
+    canonKey (str "accept") ≠ str "Cookie" ∧ canonKey (str "accept") ≠ str "Trailer" := by
+  decide +kernel
+
+/-- the hypothesis of `normalize_host` holds for `exReq`. -/
+example : exReq.authority ≠ [] := by decide +kernel
+
+/-- `ValidName` cannot be dropped from N5 *in the model*: with an empty `Trailer` map a first
+header key starting with ':' (which Go's `validateHeaders` refuses before `EncodeHeaders`; the model
+does not model the refusal) lands in the pseudo-header prefix and `regularFields` skips it. -/
+theorem normalize_keeps_field_needs_valid :
+    ∃ (r : Req) (k : Str) (vv : List Str) (v : Str), (k, vv) ∈ r.header ∧
+      lower k ∉ specialReqNames ∧ k ≠ str ":protocol" ∧ v ∈ vv ∧
+      v ∉ (normalize r).header.get (canonKey k) :=
+  ⟨{ exReq with header := [(str ":foo", [str "1"])], trailer := [] }, str ":foo", [str "1"], str "1",
+    by decide +kernel⟩
+
+/-- the exclusion of `Cookie` in N4 is necessary: two crumbs are re-joined into one value. -/
+theorem serverView_cookie_joined :
+    (serverView ⟨[⟨str "cookie", str "a=b"⟩, ⟨str "cookie", str "c=d"⟩], [], []⟩ true).header.get
+      (str "Cookie") = [str "a=b; c=d"] := by
+  decide +kernel
 
 end NetVerif.Proofs.C14Norm
